@@ -62,11 +62,11 @@ func faultKinds(op string) []string {
 	switch op {
 	case "GetEntityByID":
 		// a failing lookup may still hand back what it had (a stale or half-checked record) beside its error
-		return []string{sim.FaultError, sim.FaultTimeout, sim.FaultTemporary, sim.FaultPoolClosed, sim.FaultRecordAndError}
+		return []string{sim.FaultError, sim.FaultTimeout, sim.FaultTemporary, sim.FaultPoolClosed, sim.FaultRecordAndError, sim.FaultNilPtrError}
 	case "AuthRequestByID":
-		return []string{sim.FaultError, sim.FaultTimeout, sim.FaultTemporary, sim.FaultPoolClosed, sim.FaultRecordAndError, sim.FaultTypedNil}
+		return []string{sim.FaultError, sim.FaultTimeout, sim.FaultTemporary, sim.FaultPoolClosed, sim.FaultRecordAndError, sim.FaultTypedNil, sim.FaultNilPtrError}
 	}
-	return []string{sim.FaultError, sim.FaultTimeout, sim.FaultTemporary, sim.FaultPoolClosed}
+	return []string{sim.FaultError, sim.FaultTimeout, sim.FaultTemporary, sim.FaultPoolClosed, sim.FaultNilPtrError}
 }
 
 func c10Scenarios() []c10Scenario {
